@@ -962,14 +962,29 @@ func slInvariants(net *acmelib.Network, exactRefs bool, names ...string) []slVio
 		}
 	}
 	// reference lists
+	// a signal of the save that the loader built but never placed (e.g. the first of two
+	// signals with one entity id inside a multiplexer) is OUTSIDE the network; it legitimately
+	// references its definitions, exactly like a signal made through the API and never attached
 	for t, us := range c.typeUsers {
-		slRefsCheck(c, sprintf("type %q(%s)", t.Name(), t.EntityID()), t.References(), t.ReferenceCount(), us, exactRefs)
+		typ := t
+		slRefsCheck(c, sprintf("type %q(%s)", t.Name(), t.EntityID()), t.References(), t.ReferenceCount(), us, exactRefs,
+			func(sg *acmelib.StandardSignal) bool {
+				return sg != nil && sg.Type() == typ && sg.ParentMessage() == nil && sg.ParentMultiplexerSignal() == nil
+			})
 	}
 	for u, us := range c.unitUsers {
-		slRefsCheck(c, sprintf("unit %q(%s)", u.Name(), u.EntityID()), u.References(), u.ReferenceCount(), us, exactRefs)
+		unit := u
+		slRefsCheck(c, sprintf("unit %q(%s)", u.Name(), u.EntityID()), u.References(), u.ReferenceCount(), us, exactRefs,
+			func(sg *acmelib.StandardSignal) bool {
+				return sg != nil && sg.Unit() == unit && sg.ParentMessage() == nil && sg.ParentMultiplexerSignal() == nil
+			})
 	}
 	for e, us := range c.enumUsers {
-		slRefsCheck(c, sprintf("enum %q(%s)", e.Name(), e.EntityID()), e.References(), e.ReferenceCount(), us, exactRefs)
+		enum := e
+		slRefsCheck(c, sprintf("enum %q(%s)", e.Name(), e.EntityID()), e.References(), e.ReferenceCount(), us, exactRefs,
+			func(sg *acmelib.EnumSignal) bool {
+				return sg != nil && sg.Enum() == enum && sg.ParentMessage() == nil && sg.ParentMultiplexerSignal() == nil
+			})
 		valNames := map[string]bool{}
 		valIdx := map[int]bool{}
 		maxIdx := 0
@@ -1004,6 +1019,14 @@ func slInvariants(net *acmelib.Network, exactRefs bool, names ...string) []slVio
 		slRefsCheck(c, sprintf("attribute %q(%s)", a.Name(), a.EntityID()), a.References(), len(a.References()), us, exactRefs,
 			func(aa *acmelib.AttributeAssignment) bool {
 				// a node of the save that no bus attaches: it does carry the assignment
+				if sg, err := aa.ToSignalEntity(); err == nil {
+					// a signal the loader built but never placed (see the type / unit / enum checks)
+					if sg.ParentMessage() != nil || sg.ParentMultiplexerSignal() != nil {
+						return false
+					}
+					got, err := sg.GetAttributeAssignment(att.EntityID())
+					return err == nil && got == aa
+				}
 				n, err := aa.ToNodeEntity()
 				if err != nil || c.nodes[n] {
 					return false
